@@ -148,6 +148,20 @@ async def scenario(loop, plan, r):
                 # version negotiation does: for the watchdog it is an unanswered keep-alive like any other
                 sim.mode = "timeout@nop" if v == 4 else "timeout@counters"
                 loop.call_later(1.0, ezsp._switch_protocol_version, v)
+            if oc.startswith("timeout:cb"):
+                # the keep-alive is never answered, but while it waits the NCP emits a callback stamped with the keep-alive's
+                # own sequence byte (callbacks carry the sequence of the last command the NCP received): not an answer
+                from vlib import refezsp as _rz
+
+                sim.mode = "timeout@nop" if v == 4 else "timeout@counters"
+                n_raw = len(sim.raw)
+
+                def stray(sim=sim, n_raw=n_raw):
+                    if len(sim.raw) > n_raw:
+                        seq_ = sim.raw[-1][1][0]
+                        ezsp.frame_received(_rz.enc_stack_status(sim.table_version, seq_, 0x90 if sim.table_version < 14 else 0x15))
+
+                loop.call_later(1.0, stray)
             try:
                 await app._watchdog_feed()
             except (asyncio.TimeoutError, Exception) as ex:
@@ -188,7 +202,7 @@ async def scenario(loop, plan, r):
             else:
                 ordinal += 1
                 first = "readAndClearCounters" if ordinal % period == 0 else "readCounters"
-                want = [first] if (oc.endswith("@counters") or oc.startswith("timeout:switch")) else [first, "getValue"]
+                want = [first] if (oc.endswith("@counters") or oc.startswith("timeout:switch") or oc.startswith("timeout:cb")) else [first, "getValue"]
                 if first == "readAndClearCounters":
                     r.cls("clear-period-boundary")
             if cmds != want:
@@ -237,7 +251,7 @@ def long_plans(draw):
     seq = []
     while len(seq) < n:
         run = draw(st.integers(0, 7))
-        seq += [draw(st.sampled_from(outs[1:] + ["timeout:switch"] + (["err:stopped"] if v == 4 else []))) for _ in range(run)]
+        seq += [draw(st.sampled_from(outs[1:] + ["timeout:switch", "timeout:cb"] + (["err:stopped"] if v == 4 else []))) for _ in range(run)]
         seq += ["ok"] * draw(st.integers(1, 40 if period == 180 else 3))
     plan = {"v": v, "period": period, "seq": seq[:n]}
     if period == 180 and draw(st.integers(0, 3)) == 0:
@@ -301,6 +315,9 @@ def _worker_misc(ctx, job):
         for pos in itertools.product([fail, "timeout:switch"], repeat=6):
             plan = {"v": v, "seq": ["ok"] + list(pos) + ["ok", "timeout:switch", "ok"]}
             ctx.check(plan, check(plan), sample=(pos[2] == "timeout:switch" and pos[0] == fail))
+        for pos in itertools.product([fail, "timeout:cb"], repeat=6):
+            plan = {"v": v, "seq": ["ok"] + list(pos) + ["ok", "timeout:cb", "ok"]}
+            ctx.check(plan, check(plan), sample=(pos[2] == "timeout:cb" and pos[0] == fail))
     elif v != 4:
         for c0 in (2 ** 16 - 200, 2 ** 31 - 200, 2 ** 32 - 200, 180 * 1000 - 5):
             plan = {"v": v, "counter0": c0, "seq": ["ok"] * 420}
